@@ -7,17 +7,20 @@ lc=$(echo "$pid" | tr 'A-Z' 'a-z'); wt=/tmp/mut_${lc}_${tag}; out=${wt}_out
 [ -n "$crate" ] || crate=$(python3 -c "import json;print(json.load(open('$out/meta.json')).get('demo_crate',''))")
 [ -n "$demo" ] || demo=$(python3 -c "import json;print(json.load(open('$out/meta.json')).get('demo_test',''))")
 [ -n "$crate" ] && [ -n "$demo" ] || { echo "need crate and demo test name"; exit 2; }
+# an explicit demo command (e.g. with cargo features) takes precedence
+democmd=$(python3 -c "import json;print(json.load(open('$out/meta.json')).get('demo_cmd',''))" 2>/dev/null)
+[ -n "$democmd" ] || democmd="cargo test --offline -j8 -p $crate --test $demo"
 cd "$(dirname "$0")/.."
 VERIF_REPO=$wt ./check "$pid" > $out/check.log 2>&1; echo "exit $?" >> $out/check.log
 tail -n 4 $out/check.log
 cd $wt
 # the demonstration lives under tests/ of the crate: make sure it is there
 suite=$(timeout 2400 cargo test --offline -j8 -p $crate --lib 2>&1 | grep -E "^test result" | head -1)
-with=$(timeout 1200 cargo test --offline -j8 -p $crate --test $demo 2>&1 | grep -E "^test result" | head -1)
+with=$(timeout 1800 sh -c "$democmd" 2>&1 | grep -E "^test result" | head -1)
 git apply -R $out/patch.diff
-without=$(timeout 1200 cargo test --offline -j8 -p $crate --test $demo 2>&1 | grep -E "^test result" | head -1)
+without=$(timeout 1800 sh -c "$democmd" 2>&1 | grep -E "^test result" | head -1)
 echo "suite(with patch): $suite"; echo "demo with patch: $with"; echo "demo without patch: $without"
 cd /verif
-./tools/keep_mutant.py "$pid" "$tag" $out $out/check.log "coordinator re-ran in the agent's worktree: cargo test --offline -p $crate --lib with the patch -> [$suite]; demonstration $demo with the patch -> [$with]; after git apply -R -> [$without]; the agent's full workspace run is quoted in tests_run"
+./tools/keep_mutant.py "$pid" "$tag" $out $out/check.log "coordinator re-ran in the agent's worktree: cargo test --offline -p $crate --lib with the patch -> [$suite]; demonstration [$democmd] with the patch -> [$with]; after git apply -R -> [$without]; the agent's full workspace run is quoted in tests_run"
 git -C /repo worktree remove --force $wt; rm -rf $out
 H=$(python3 -c "import hashlib;print(hashlib.sha1(b'$wt').hexdigest()[:8])"); rm -rf .build/target-$H .build/harness-$H .build/run/$pid-$H
